@@ -272,10 +272,30 @@ func VH_C17_MapCopy() {
 	storage := vhNewBasicStorage()
 	addr := vhAddr(1)
 	b := &vDigesterBuilder{levels: 4}
-	n := 1 + vhChoose("n", vhParam("keys", 3))
-	m, model := vhBuildMap(storage, addr, b, []int{n})
+	var m *OrderedMap
+	var model []vhKV
+	if vhChoose("withgroup", 2) == 0 {
+		n := 1 + vhChoose("n", vhParam("keys", 3))
+		m, model = vhBuildMap(storage, addr, b, []int{n})
+	} else {
+		// a single-slab map holding a collision group: inline (plain values: the
+		// copy is offered and copies the group), nested, last-level list, or an
+		// external group (a reference to another slab: not offered)
+		if vhChoose("listmode", 2) == 1 {
+			b.levels = 1
+		}
+		nsingle := vhChoose("nsingle", 2)
+		external := vhChoose("external", 2) == 1
+		deep := b.levels > 1 && vhChoose("deep", 2) == 1
+		m, model, _ = vhBuildGroupMapDeep(storage, addr, b, nsingle, 2, vhChoose("gpos", nsingle+1), external, deep)
+		if external {
+			vhAssert(!m.CanCopyNonRefSimple(), "copy not offered for a map that references another slab")
+			vhReach("mapcopy-done")
+			return
+		}
+	}
 	vhAssert(m.CanCopyNonRefSimple(), "copy offered for a single-slab map of plain values")
-	b2 := &vDigesterBuilder{levels: 4}
+	b2 := &vDigesterBuilder{levels: b.levels}
 	cp, err := m.CopyNonRefSimple(vhAddr(2), b2)
 	vhAssert(err == nil, "offered copy succeeds")
 	if err != nil {
